@@ -131,7 +131,7 @@ def build():
                   E('free', 'final(self).abs().free == old(self).abs().killed_free(delete@, kill_pos(r, delete@))', 'C17 C20'),
                   E('complete', 'old(self).wf_complete() ==> final(self).wf_complete()', 'C17')],
          closures={'|e| e.0': dict(params='e: &Entity', ret='r__: Index', ensures=[('id', 'r__ == e.0')])},
-         loops={0: dict(invariant=[E('inv', 'kill_loop_inv(old(self), &*self, delete@, index as nat)'),
+         loops={0: dict(over='delete', invariant=[E('inv', 'kill_loop_inv(old(self), &*self, delete@, index as nat)'),
                                    E('complete', 'kill_loop_complete(old(self), &*self, delete@, index as nat)', 'C17'),
                                    E('pre', 'old(self).wf() && old(self).headroom() && all_legit(old(self), delete@)'),
                                    E('mid', 'mid == *self')],
@@ -218,14 +218,14 @@ def build():
                   E('complete', 'old(self).wf_complete() ==> final(self).wf_complete()', 'C17'),
                   E('headroom', 'final(self).headroom_n(2)', 'C01')],
          closures={'|e| e.0': dict(params='e: &Entity', ret='r__: Index', ensures=[('id', 'r__ == e.0')])},
-         loops={0: dict(iter_name='it',
+         loops={0: dict(iter_name='it', over='self.raised',
                         invariant=[E('inv', 'merge_inv1(old(self), &*self, it.index@ as nat)'),
                                    E('seq', 'it.seq() == sorted_seq(old(self).raised@)'),
                                    E('pre', 'old(self).wf() && old(self).headroom() && deleted@.len() == 0'),
                                    E('mid', 'mid == *self')],
                         start='let ghost p = *self; proof { lemma_merge_pre1(old(self), &p, it.index@ as nat); }',
                         end='proof { lemma_merge_iter1(old(self), &p, &*self, it.index@ as nat); mid = *self; }'),
-                1: dict(iter_name='it',
+                1: dict(iter_name='it', over='self.killed',
                         invariant=[E('inv', 'merge_inv2(old(self), &*self, it.index@ as nat, deleted@)'),
                                    E('seq', 'it.seq() == sorted_seq(old(self).killed@)'),
                                    E('pre', 'old(self).wf() && old(self).headroom()'),
